@@ -244,7 +244,7 @@ theorem buildTagMap_nil (env : Env) (tag : String) (i : Nat) (acc : List (Val ×
 theorem buildTagMap_cons (env : Env) (tag : String) (t : Ty) (ts : List Ty) (i : Nat) (acc : List (Val × Nat)) :
     buildTagMap env tag (t :: ts) i acc =
       match tagAttr env tag t with
-      | none => .error (.attributeError ("Tag '" ++ tag ++ "' not found inside type"))
+      | none => .error (.typeError ("Tag '" ++ tag ++ "' not found inside type"))
       | some v =>
         if !v.hashable then .error (.typeError "unhashable tag value")
         else if (Val.lookupPy v acc).isSome then .error (.typeError "Tag value matches multiple types")
@@ -304,7 +304,7 @@ theorem buildTagMap_error_kind (env : Env) (tag : String) :
         · cases h; exact .inr rfl
         · exact buildTagMap_error_kind env tag ts _ _ e (fun t' ht' => hall t' (List.mem_cons_of_mem _ ht')) h
 
-/-- a member without the tag attribute: no tag map (either this `AttributeError`, or an earlier
+/-- a member without the tag attribute: no tag map (either this `TypeError`, or an earlier
 `TypeError`) -/
 theorem buildTagMap_missing (env : Env) (tag : String) :
     ∀ (ts : List Ty) (i : Nat) (acc : List (Val × Nat)),
